@@ -195,6 +195,9 @@ func (j *JSON) add(file sts.Hashed) {
 		existing.Time = marshal.NanoTime{Time: file.GetTime()}
 		existing.Meta = file.GetMeta()
 		existing.Hash = file.GetHash()
+		// A (re)added file is a version still to be sent: the "done" mark of the
+		// version it replaces must not carry over.
+		existing.Done = false
 		return
 	}
 	j.Files[file.GetName()] = &cacheFile{
